@@ -260,4 +260,29 @@ theorem effectiveOpts_append (pre : List (List Opt)) (l : List Opt) : effectiveO
     | nil => rfl
     | cons b t' => simpa [effectiveOpts] using ih
 
+/-! ### bytes of a forwarded address -/
+
+theorem natBytes_length (n v : Nat) : (natBytes n v).length = n := by
+  induction n generalizing v with
+  | zero => rfl
+  | succ n ih => simp [natBytes, ih]
+
+theorem bytesVal_append (l : List Nat) (b : Nat) : bytesVal (l ++ [b]) = bytesVal l * 256 + b := by
+  unfold bytesVal; simp [List.foldl_append]
+
+theorem bytesVal_natBytes (n v : Nat) (h : v < 256 ^ n) : bytesVal (natBytes n v) = v := by
+  induction n generalizing v with
+  | zero => simp at h; subst h; rfl
+  | succ n ih =>
+    simp only [natBytes, bytesVal_append]
+    have : v / 256 < 256 ^ n := by
+      rw [Nat.div_lt_iff_lt_mul (by decide)]; rw [Nat.pow_succ] at h; exact h
+    rw [ih _ this]
+    have := Nat.div_add_mod v 256
+    omega
+
+theorem maskTo_of_aligned (w b v : Nat) (h : v % 2 ^ (w - b) = 0) : maskTo w b v = v := by
+  unfold maskTo
+  exact Nat.div_mul_cancel (Nat.dvd_of_mod_eq_zero h)
+
 end SdnsVerif.Lemmas.Ecs
